@@ -14,6 +14,8 @@ package cache
 // = more recently used), each member e carrying the entry ent(e) = (key, value, size). The table maps
 // exactly the members' keys to their elements.
 //@ pure ent(e *list.Element) *entry = *entry(e.Value)
+// evl: specification variable - the elements evicted by the current operation, in eviction order
+//@ ghost evl [0]*list.Element
 //@ pure isent(e *list.Element) bool = tag(e.Value) == tag(any(*entry(nil))) && ent(e) != nil
 //@ opaque SUM(mem [0]bool, val [0]interface{}, sz [0]int64) int64
 //@ pure total(c *LRUCache) int64 = SUM(c.list.lmem, fieldmap(list.Element.Value), fieldmap(entry.size))
@@ -137,9 +139,14 @@ package cache
 //@   ensures #evictions lru.evictions == old(lru.evictions) + old(lru.list.lcnt) - lru.list.lcnt
 //@   ensures #tablesub forall k interface{} :: { has(lru.table, k) } has(lru.table, k) ==> old(has(lru.table, k)) && lru.table[k] == old(lru.table[k])
 //@   ensures #same lru.capacity == old(lru.capacity) && lru.list == old(lru.list) && lru.table == old(lru.table)
+//@   aftercall Back evl = store(evl, len(removedValueList), result)
+//@   ensures #values forall j int :: { removedValueList[j] } 0 <= j && j < len(removedValueList) ==> removedValueList[j] == ent(evl[j]).value && old(lru.list.lmem)[evl[j]] && !lru.list.lmem[evl[j]]
+//@   ensures #lrufirstreported forall a int, b int :: { evl[a], evl[b] } 0 <= a && a < b && b < len(removedValueList) ==> evl[b].lrk < evl[a].lrk
 //@   ensures #reported len(removedValueList) == lru.evictions - old(lru.evictions)
-//@   modifies lru.size, lru.evictions, entries(lru.table), lru.list.lmem, lru.list.lcnt, region($alloc)
+//@   modifies lru.size, lru.evictions, entries(lru.table), lru.list.lmem, lru.list.lcnt, region($alloc), evl
 //@   loop 1
+//@     invariant #values forall j int :: { removedValueList[j] } 0 <= j && j < len(removedValueList) ==> removedValueList[j] == ent(evl[j]).value && old(lru.list.lmem)[evl[j]] && !lru.list.lmem[evl[j]]
+//@     invariant #lrufirstreported (forall a int, b int :: { evl[a], evl[b] } 0 <= a && a < b && b < len(removedValueList) ==> evl[b].lrk < evl[a].lrk) && (forall a int, e *list.Element :: { evl[a], lru.list.lmem[e] } 0 <= a && a < len(removedValueList) && lru.list.lmem[e] ==> e.lrk < evl[a].lrk)
 //@     invariant #ri ri(lru) && wheld(lru.mu) && lru.capacity == old(lru.capacity) && lru.list == old(lru.list) && lru.table == old(lru.table)
 //@     invariant #noop old(lru.size) <= lru.capacity ==> lru.list.lmem == old(lru.list.lmem) && lru.evictions == old(lru.evictions) && lru.size == old(lru.size)
 //@     invariant #subset forall e *list.Element :: { lru.list.lmem[e] } lru.list.lmem[e] ==> old(lru.list.lmem[e])
@@ -158,7 +165,8 @@ package cache
 //@   ensures #keptifnoeviction lru.evictions == old(lru.evictions) ==> has(lru.table, key) && lru.list.lcnt == old(lru.list.lcnt) + 1
 //@   ensures #mrulast !has(lru.table, key) ==> lru.list.lcnt == 0
 //@   ensures #reported len(result) == lru.evictions - old(lru.evictions)
-//@   modifies region($alloc), lru.size, lru.evictions, mapsof(lru.table), list.List.lmem, list.List.lcnt, list.Element.lrk, list.Element.Value, entry.key, entry.value, entry.size
+//@   ensures #values (forall j int :: { result[j] } 0 <= j && j < len(result) ==> result[j] == ent(evl[j]).value && !lru.list.lmem[evl[j]]) && (forall a int, b int :: { evl[a], evl[b] } 0 <= a && a < b && b < len(result) ==> evl[b].lrk < evl[a].lrk)
+//@   modifies region($alloc), lru.size, lru.evictions, mapsof(lru.table), list.List.lmem, list.List.lcnt, list.Element.lrk, list.Element.Value, entry.key, entry.value, entry.size, evl
 //
 //@ func LRUCache.updateInPlaceAndGetRemoved
 //@   requires wheld(lru.mu) && ri(lru) && headroom(lru) && element != nil && lru.list.lmem[element]
@@ -170,7 +178,8 @@ package cache
 //@   ensures #mrulast !lru.list.lmem[element] ==> lru.list.lcnt == 0
 //@   ensures #lrufirst forall r *list.Element, e *list.Element :: { old(lru.list.lmem[r]), lru.list.lmem[e] } old(lru.list.lmem[r]) && !lru.list.lmem[r] && lru.list.lmem[e] && r != element && e != element ==> old(e.lrk) < old(r.lrk)
 //@   ensures #reported len(result) == lru.evictions - old(lru.evictions)
-//@   modifies region($alloc), lru.size, lru.evictions, entries(lru.table), lru.list.lmem, lru.list.lcnt, list.Element.lrk, entry.value, entry.size
+//@   ensures #values (forall j int :: { result[j] } 0 <= j && j < len(result) ==> result[j] == ent(evl[j]).value && !lru.list.lmem[evl[j]]) && (forall a int, b int :: { evl[a], evl[b] } 0 <= a && a < b && b < len(result) ==> evl[b].lrk < evl[a].lrk)
+//@   modifies region($alloc), lru.size, lru.evictions, entries(lru.table), lru.list.lmem, lru.list.lcnt, list.Element.lrk, entry.value, entry.size, evl
 //
 // ---- public operations ----
 //@ func LRUCache.Set
@@ -190,9 +199,10 @@ package cache
 //@   ensures #order forall e *list.Element :: { e.lrk } cs(lru.list.lmem[e]) && lru.list.lmem[e] && e != lru.table[key] ==> e.lrk == cs(e.lrk)
 //@   ensures #capacity lru.capacity == cs(lru.capacity)
 //@   ensures #reported len(removedValueList) == lru.evictions - cs(lru.evictions)
+//@   ensures #values (forall j int :: { removedValueList[j] } 0 <= j && j < len(removedValueList) ==> removedValueList[j] == ent(evl[j]).value && !lru.list.lmem[evl[j]]) && (forall a int, b int :: { evl[a], evl[b] } 0 <= a && a < b && b < len(removedValueList) ==> evl[b].lrk < evl[a].lrk)
 //@   ensures #mrulast !has(lru.table, key) ==> lru.list.lcnt == 0
 //@   ensures #lrufirst forall r *list.Element, e *list.Element :: { cs(lru.list.lmem[r]), lru.list.lmem[e] } cs(lru.list.lmem[r]) && !lru.list.lmem[r] && lru.list.lmem[e] && cs(lru.list.lmem[e]) && r != cs(lru.table[key]) && e != cs(lru.table[key]) ==> cs(e.lrk) < cs(r.lrk)
-//@   modifies region($alloc), LRUCache.list, LRUCache.table, LRUCache.size, LRUCache.capacity, LRUCache.evictions, mapsof(lru.table), list.List.lmem, list.List.lcnt, list.Element.lrk, list.Element.Value, entry.key, entry.value, entry.size
+//@   modifies region($alloc), LRUCache.list, LRUCache.table, LRUCache.size, LRUCache.capacity, LRUCache.evictions, mapsof(lru.table), list.List.lmem, list.List.lcnt, list.Element.lrk, list.Element.Value, entry.key, entry.value, entry.size, evl
 //
 //@ func LRUCache.SetIfAbsent
 //@   requires !held(lru.mu)
